@@ -23,8 +23,8 @@ def splitmix64(*xs):
     return z
 
 
-TOPOLOGIES = ["T1", "T2", "T3", "T4r", "T4g", "T5num", "T5ca", "T5filter", "T5bad", "T6", "T7", "T8", "T9"]
-TOPOLOGY_WEIGHTS = [10, 18, 10, 8, 12, 7, 6, 5, 4, 8, 6, 6, 5]
+TOPOLOGIES = ["T1", "T2", "T3", "T4r", "T4g", "T5num", "T5ca", "T5filter", "T5bad", "T6", "T7", "T8", "T9", "T10"]
+TOPOLOGY_WEIGHTS = [10, 18, 10, 8, 12, 7, 6, 5, 4, 8, 6, 6, 5, 4]
 
 _groups = None
 
@@ -194,6 +194,12 @@ def _structural_perturbations(rnd, meta):
         if d["raw_idx"] >= 0 and len(valid) >= 2:
             i, j = rnd.sample(valid[:12], 2) if len(valid[:12]) >= 2 else (valid[0], valid[1])
             out.append(["duplabel", d["raw_idx"], i, j])
+    dts = [d for d in meta["dims"] if d["type"] == "DATETIME" and d["raw_idx"] >= 0]
+    if dts and rnd.random() < 0.5:
+        out.append(["resolution", rnd.choice(dts)["raw_idx"], rnd.choice(["2M", "6M", "3M", "Q", "2W", "15m", "2Y", "10s"])])
+    nums = [m for m in ("mean", "sum", "stddev", "median") if m.upper() in meta["measures"]]
+    if nums and rnd.random() < 0.25:
+        out.append(["infinity", rnd.choice(nums), rnd.randrange(64), rnd.choice([1, -1])])
     if rnd.random() < 0.2:
         # `type.order`: the data along this dimension is in the listed order (honoured since
         # 3.0.33); any permutation of the ids is a valid (other) table
@@ -274,7 +280,8 @@ def generate(run_seed, tier_cfg):
     if knobs["mode"] == "sweep":
         knobs["max_steps"] = rnd.choice(tier_cfg.get("sweep_steps", [150, 220]))
     fault_free = rnd.random() < tier_cfg.get("fault_free_share", 0.25)
-    all_faults = ["F1", "F2", "F3", "F4", "F5"]
+    all_faults = ["F1", "F2", "F3", "F4", "F5", "F6"]
+    knobs["ambient_rate"] = rnd.choice([0.02, 0.05, 0.12])
     if fault_free:
         faults = []
         knobs["warnings"] = "ignore"
@@ -457,6 +464,25 @@ def generate(run_seed, tier_cfg):
             knobs["marathon"] = True
             knobs["max_steps"] = mar["steps"]
             knobs["deck_script"] = rnd.choice(["exporter", "numeric-heavy"])
+    elif topo == "T10":
+        # one table derived from another: the trimmed response has new lists and new counts but
+        # shares the element dicts (and the other dimension dicts) with the full one
+        cands = [n for n in g["shimmed"] if ix[n]["ndim"] >= 1 and ix[n]["bytes"] < 40000]
+        name = rnd.choice(cands)
+        args["r0"] = _response_arg(rnd, knobs, name, allow_perturb=False)
+        meta = _meta_for(args["r0"])
+        raw = json.loads(model.corpus_text(name))
+        rdims = raw.get("value", raw)["result"]["dimensions"]
+        enum_dims = [k for k, d in enumerate(rdims) if d["type"].get("class") == "enum" and len(d["type"].get("elements", [])) >= 3]
+        di = rnd.choice(enum_dims) if enum_dims else None
+        args["t0"] = _transforms_arg(rnd, knobs, meta)
+        if di is not None:
+            n_el = len(rdims[di]["type"]["elements"])
+            args["r1"] = {"kind": "response", "trim_of": "r0", "dim": di, "drop": rnd.randrange(n_el), "form": "asis"}
+            specs["s0"] = _cube_spec(rnd, "r1", "t0", scal)
+            specs["s2"] = _cube_spec(rnd, "r1", None, scal)
+        specs["s1"] = _cube_spec(rnd, "r0", "t0", scal)
+        specs["s3"] = _cube_spec(rnd, "r0", None, scal)
     elif topo == "T8":
         # per-dimension transform dicts composed into per-table transforms: the dict object
         # written for the rows of one table is the columns dict of another
@@ -552,6 +578,8 @@ def generate(run_seed, tier_cfg):
     # forms: outside T6 responses are mostly dicts (the only form that can be edited)
     if topo != "T6":
         for aid in sorted(args):
+            if topo == "T10":
+                continue
             if args[aid]["kind"] == "response" and "view_of" not in args[aid] and rnd.random() < 0.12:
                 args[aid]["form"] = rnd.choice(["json", "toggle", "json-toggle"])
             elif args[aid]["kind"] == "response" and "F1" in faults and rnd.random() < 0.02:
